@@ -38,7 +38,8 @@ ExpectedComplete(p) == IF p.sized THEN p.total >= p.declared ELSE ~p.end_err
 ExpectedLen(p) == IF p.sized THEN Min(p.declared, p.total) ELSE p.total
 MustClose(q, p, cfg) == q.conn = "close" \/ (q.ver = 10 /\ q.conn # "keep-alive") \/ cfg.ka_ms = 0 \/ p.conn = "close"
 AnnouncesClose(e) == e.conn = "close" \/ (e.ver = 10 /\ e.conn # "keep-alive")
-MayCloseAnyway(rs, q, p) == (q.blen > 0 /\ p.read # "all") \/ rs.signalled \/ q.upgrade
+\* (a chunked request has a body to read even when that body is empty: its terminator is unread when the handler answers at once)
+MayCloseAnyway(rs, q, p) == ((q.blen > 0 \/ q.chunked) /\ p.read # "all") \/ rs.signalled \/ q.upgrade
 
 (* closeFed: how much had been fed at the first moment after a closing response at which the connection had nothing left *)
 (* to do: every dispatched request answered and every byte sent so far belonging to them.  A request that starts at or    *)
@@ -179,7 +180,8 @@ OnRespCut(rs, e) ==
      E({"C02", "C04"}, Faulted(rs) \/ ~e.final \/ SomeBodyFails(rs), rs,
        IF ChunkDrop(rs) THEN "C02/RespCut/dropped-on-malformed-chunk" ELSE "C02/RespCut/head-cut")
   ELSE
-     E({"C02", "C04"}, Faulted(rs) \/ ~e.final \/ cur.bodiless \/ SomeBodyFails(rs),
+     \* (a response that was started after a closing response - the recorded C03 deviation - may be cut by the shutdown)
+     E({"C02", "C04"}, Faulted(rs) \/ ~e.final \/ cur.bodiless \/ SomeBodyFails(rs) \/ rs.final,
        [rs EXCEPT !.answered = @ + 1, !.cur = NoCur],
        IF ChunkDrop(rs) THEN "C02/RespCut/dropped-on-malformed-chunk" ELSE "C02/RespCut/complete-body-cut")
 
@@ -198,7 +200,7 @@ CanFinish(rs) == rs.sock.shutdown = "ready" /\ rs.unlimited
 HeadLate(rs, t) == rs.cfg.head_ms > 0 /\ rs.tHead1 < 0 /\ rs.called = 0 /\ t >= rs.cfg.head_ms + LAG
 \* lingering close (reading and discarding the rest of an unread body) is a phase of its own before the shutdown proper,
 \* each bounded by the disconnect timeout
-LingerPossible(rs) == \E i \in 1..rs.called : i <= NReq(rs) /\ rs.gt[i].blen > 0 /\ rs.pf[i].read # "all"
+LingerPossible(rs) == \E i \in 1..rs.called : i <= NReq(rs) /\ (rs.gt[i].blen > 0 \/ rs.gt[i].chunked) /\ rs.pf[i].read # "all"
 DiscBound(rs) == (IF LingerPossible(rs) THEN 2 ELSE 1) * rs.cfg.disc_ms + LAG
 ShutLate(rs, t) ==
   /\ rs.cfg.disc_ms > 0 /\ ~rs.done
